@@ -353,6 +353,9 @@ UNREACHABLE = {'cr_in_unit'}
 class _FakeRun(object):
     warmup_iterations = 0
 
+    def __hash__(self):
+        return id(self)
+
     def __init__(self, cols):
         self.cols = cols
         self.loaded = []
@@ -364,13 +367,23 @@ class _FakeRun(object):
         self.loaded.append(list(data_point.get_measurements()))
 
 
+_LINE_PERS = {}
+
+
 def real_parse_line(table, line):
     """one line through the loader's own `_FilePersistence._parse_data_line` (not a re-implementation of
-    its splitting): returns the Measurement it built, or None for the tolerated ValueError / IndexError"""
-    from rebench.persistence import _FilePersistence
-    pers = object.__new__(_FilePersistence)
+    its splitting): returns the Measurement it built, or None for the tolerated ValueError / IndexError.
+    The persistence object is built by its own constructor (whatever state the loader keeps)."""
+    import types
+    from rebench.persistence import _FilePersistence, DataStore
+    from rebench.ui import TestDummyUI
+    if 'p' not in _LINE_PERS:
+        ui = TestDummyUI()
+        _LINE_PERS['p'] = _FilePersistence(os.path.join(lib.SCRATCH_ROOT, 'c07-line-%d.data' % os.getpid()),
+                                           DataStore(ui), types.SimpleNamespace(discard_old_data=False, options=None),
+                                           ui)
+    pers = _LINE_PERS['p']
     pers._id_to_run_id = table
-    pers._data_filename = 'line.txt'
     fake = table[0]
     del fake.loaded[:]
     try:
@@ -869,14 +882,24 @@ def cross_process_histories(ck, n):
                  'env': dict(rng.sample([('ZED', 'z'), ('ALPHA', 'a'), ('MID', 'm'), ('beta', 'b')], rng.randint(2, 4)))}
         if rng.random() < 0.5:
             suite['variable_values'] = rng.sample(['v3', 'v1', 'v2', 'va'], rng.randint(2, 3))
+        # non-ASCII text in identity fields that only the metadata records carry
+        suite['description'] = rng.choice(['Größe der Ünï-Suite', 'π ≈ 3.14 — naïve', 'plain'])
+        # (not in env values or the command line: a process with an ASCII locale cannot pass them to execve at all)
         cfg = {'default_experiment': 'all', 'default_data_file': 'x.data', 'runs': {'invocations': 1},
                'benchmark_suites': {'S': suite}, 'executors': {'E': {'path': wd, 'executable': 'harness.sh'}},
                'experiments': {'X': {'suites': ['S'], 'executions': ['E']}}}
         conf = drive.write_config(wd, cfg)
         seeds = rng.sample(['0', '1', '2', '7', '42', '123', '999', '31337'], 3)
+        # the process environment of a session: hash seed x locale / encoding of text files
+        locales = [{'LC_ALL': 'C.UTF-8', 'PYTHONUTF8': '1'},
+                   {'LC_ALL': 'C', 'PYTHONUTF8': '0', 'PYTHONCOERCECLOCALE': '0'},
+                   {'LANG': 'C.UTF-8', 'LC_ALL': 'C.UTF-8'}]
+        rng.shuffle(locales)
         results = []
-        for hs in seeds:
-            env = dict(os.environ, PYTHONPATH=lib.REPO, PYTHONDONTWRITEBYTECODE='1', PYTHONHASHSEED=hs)
+        for hs, loc in zip(seeds, locales):
+            base = {k: v for k, v in os.environ.items() if k not in ('LC_ALL', 'LANG', 'PYTHONUTF8',
+                                                                      'PYTHONCOERCECLOCALE', 'PYTHONIOENCODING')}
+            env = dict(base, PYTHONPATH=lib.REPO, PYTHONDONTWRITEBYTECODE='1', PYTHONHASHSEED=hs, **loc)
             launcher = ('import sys; sys.argv=["rebench","-D",%r]; from rebench.rebench import main_func; '
                         'sys.exit(main_func())' % conf)
             p = subprocess.Popen([sys.executable, '-B', '-c', launcher], cwd=wd, env=env,
@@ -888,24 +911,25 @@ def cross_process_histories(ck, n):
                 p.communicate()
                 raise lib.InfraError('CLI session hung')
             starts = dp.read_text(os.path.join(wd, 'starts.log')).count('\n')
-            results.append({'hashseed': hs, 'exit': p.returncode, 'starts_total': starts,
+            results.append({'hashseed': hs, 'locale': loc, 'exit': p.returncode, 'starts_total': starts,
                             'traceback': 'Traceback' in err.decode('utf-8', 'replace'),
                             'stderr_tail': err.decode('utf-8', 'replace')[-300:],
                             'text': dp.read_text(os.path.join(wd, 'x.data'))})
             ck.impl_traces += 1
         n_runs = len(suite['benchmarks']) * len(tags) * len(suite['input_sizes']) * len(suite.get('variable_values', [1]))
-        inp = {'cross_process': True, 'cfg': cfg, 'hash_seeds': seeds, 'runs': n_runs}
+        inp = {'cross_process': True, 'cfg': cfg, 'hash_seeds': seeds, 'locales': locales, 'runs': n_runs}
         ck.count('cross-process:tags=%d' % len(tags))
         ck.case(nontrivial_key=('xproc', idx, tuple(seeds)), sample={'tags': tags, 'hash_seeds': seeds,
                                                                      'exits': [r['exit'] for r in results]})
-        sig = {'class': 'other_process_other_hash_seed'}
+        sig = {'class': 'other_process_other_hash_seed_or_locale'}
         first = results[0]
         if first['traceback'] or first['starts_total'] != n_runs:
             ck.oracle_fail('no_crash' if first['traceback'] else 'first_session_runs_everything', inp,
                            {k: first[k] for k in ('exit', 'starts_total', 'stderr_tail')}, dict(sig, level='session'))
             continue
         for r, prev in zip(results[1:], results[:-1]):
-            d = {'hashseed': r['hashseed'], 'exit': r['exit'], 'new_starts': r['starts_total'] - prev['starts_total'],
+            d = {'hashseed': r['hashseed'], 'locale': r['locale'], 'previous_locale': prev['locale'], 'exit': r['exit'],
+                 'new_starts': r['starts_total'] - prev['starts_total'],
                  'stderr_tail': r['stderr_tail'] if r['traceback'] else ''}
             if r['traceback']:
                 ck.oracle_fail('no_crash', inp, d, dict(sig, level='session'))
